@@ -181,7 +181,13 @@ def wrapper_line(rng, valid=True):
     online = rng.choice([0, 1])
     body = 'PGHP,1,%d,%d,%d,%d,%d,%d,%d,%s,%s,%s,%d,%02X' % (y, mo, d, h, mi, s, ms, country, region, pss, online,
                                                             rng.randrange(256))
-    line = b'$' + body.encode() + b'*' + format(ais.xor_checksum(body.encode()), '02X').encode()
+    if rng.random() < 0.12:
+        body = rng.choice(['pghp', 'PGhp', 'pgHP', 'Pghp']) + body[4:]      # the library folds the case of sentence tags
+    cs = ais.xor_checksum(body.encode())
+    if rng.random() < 0.12:
+        cs ^= rng.choice([0x01, 0x10, 0x5A])          # a wrapper with a wrong checksum of its own is still the wrapper (pinned
+        #                                               by tests/timestamped.ais); it is flagged, not dropped
+    line = b'$' + body.encode() + b'*' + format(cs, '02X').encode()
     if rng.random() < 0.2:
         line = b'\\' + tag_block(rng) + b'\\' + line          # a wrapper line may carry a tag block like any other sentence
     d_ = {'kind': 'wrapper' if valid else 'badwrapper', 'hex': line.hex()}
@@ -203,7 +209,7 @@ MALFORMED_INSCOPE = [b'!AIVDM,1,1,,A,15M67FC000G?ufbE`FepT@3n00Sa', b'!AIVDM,1,1
                      b'!AIVDM,1,1,,B,15M67F\x00C0,0*00', b'!AIXYZ,1,1,,A,15M67FC,0*00', b'$PGHP,0,21,1,1,1,1,1,1,1,1,1,1*00']
 
 # correspondence only (outside the quantifier of C03/C07/C18, partly C05 territory)
-MALFORMED_OUT = [b'', b' ', b'!AIVDM', b'$PGHP', b'xAIVDM,1,1,,A,15M67FC000G?ufbE`FepT@3n00Sa,0*5C',
+MALFORMED_OUT = [b'', b' ', b'\x00', b' \x00 \x00', b'\x00' * 12, b'!AIVDM', b'$PGHP', b'xAIVDM,1,1,,A,15M67FC000G?ufbE`FepT@3n00Sa,0*5C',
                  b' !AIVDM,1,1,,A,15M67FC000G?ufbE`FepT@3n00Sa,0*5C', b'AIVDM,1,1,,A,15M67FC000G?ufbE`FepT@3n00Sa,0*5C',
                  b'!AIVDM,0,1,,A,15M67F,0*00', b'!AIVDM,0,1,3,A,15M67F,0*00', b'!AIVDM,2,-1,3,A,15M67F,0*00',
                  b'!AIVDM,2,0,3,B,15M67F,0*00', b'!AIVDM,3,-300,3,B,15M67F,0*00', b'!AIVDM,-2,1,3,B,15M67F,0*00',
@@ -1280,7 +1286,7 @@ def run_case(ctx, seq, label, term=b'', tbq=False, frontends=None, cache=None, t
         # the same lines into a BOUNDED queue whose puts may be refused (backpressure; bounded = the recorded k / consumer of a replay)
         run_bounded_case(ctx, seq, label, lines, term, tbq, want, scoped and not pairwise_only, spec_per, results, frontends,
                          previous, only=bounded)
-    if label.startswith('sequential') and 'ByteStream' in frontends and set(want) & {'C03', 'C07'}:
+    if label.startswith('sequential') and 'ByteStream' in frontends:
         # iteration interrupted after every delivered message and resumed (`for ... break`, again `for ...`): the readers are
         # at rest at those points, so the deliveries must be the same as for uninterrupted iteration
         res3 = run_resumed(lines_for('ByteStream', lines, term), tbq)
@@ -1289,6 +1295,11 @@ def run_case(ctx, seq, label, term=b'', tbq=False, frontends=None, cache=None, t
         if scoped and ctx.model is not None and 'C03' in want:
             for comp, kind, text in oracle_c03(spec_per, res3, 'ByteStream/resumed'):
                 rep.violation({'entry': 'ByteStream/resumed', 'component': comp, 'kind': kind}, f'{text} [{label}]',
+                              {'seq': seq, 'term': term.hex(), 'tbq': tbq, 'label': label, 'previous': previous, 'frontend': 'ByteStream/resumed'})
+        if scoped and ctx.model is not None and 'C18' in want:
+            # leaving the loop after a delivery and entering it again must not re-attach (or lose) the pending wrapper
+            for comp, kind, text, cls in oracle_c18(ctx.model, seq, spec_per, res3, 'ByteStream/resumed'):
+                rep.violation({'entry': 'ByteStream/resumed', 'component': comp, 'kind': kind, 'class': cls}, f'{text} [{label}]',
                               {'seq': seq, 'term': term.hex(), 'tbq': tbq, 'label': label, 'previous': previous, 'frontend': 'ByteStream/resumed'})
     if label.startswith('sequential') and 'ByteStream' in frontends:
         # the source runs dry at quiescent points (always right after a wrapper line) and the SAME reader is iterated again when
